@@ -256,7 +256,7 @@ fn gen_extreme(r: &mut Rng, v: &Vocab) -> String {
         }
         0 => {
             // deep parentheses: depth 2..=124
-            let d = [2usize, 5, 16, 31, 32, 33, 60, 62, 63, 64, 65, 66, 70, 90, 120, 124][r.below(16)];
+            let d = [2usize, 5, 16, 31, 32, 33, 60, 62, 63, 64, 65, 66, 70, 90, 120, 124, 125, 126, 127, 127][r.below(20)];
             format!("{}{}{}", "(".repeat(d), leaf(r), ")".repeat(d))
         }
         1 => {
@@ -297,14 +297,25 @@ fn gen_extreme(r: &mut Rng, v: &Vocab) -> String {
         }
         4 if !v.aggr.is_empty() => {
             // wide aggregate
-            let n = [7usize, 8, 9, 12, 16, 17, 25, 32, 40][r.below(9)];
+            let n = [7usize, 8, 9, 12, 16, 17, 25, 32, 40, 63, 64, 65, 100, 120][r.below(14)];
             let f = r.pick(&v.aggr).to_string();
             let args: Vec<String> = (0..n)
-                .map(|i| match i % 4 {
-                    0 => "@".to_string(),
-                    1 => format!("@+{}", i),
-                    2 => format!("{}", i * 3 % 11),
-                    _ => format!("{}*@", i),
+                .map(|i| {
+                    if n > 40 {
+                        // many short arguments (the text must stay within 256 characters)
+                        match i % 3 {
+                            0 => "@".to_string(),
+                            1 => if v.floats { format!(".{}", 1 + i % 9) } else { format!("{}", i % 10) },
+                            _ => format!("{}", i % 7),
+                        }
+                    } else {
+                        match i % 4 {
+                            0 => "@".to_string(),
+                            1 => format!("@+{}", i),
+                            2 => format!("{}", i * 3 % 11),
+                            _ => format!("{}*@", i),
+                        }
+                    }
                 })
                 .collect();
             format!("{}({})", f, args.join(","))
@@ -536,7 +547,7 @@ fn pair_shapes(f: &str, g: &str, r: &mut Rng, all: bool) -> Vec<String> {
     let g = g.trim_end_matches('(');
     let leaf = |r: &mut Rng| ["@", "@", "@", "1", "2", "@+1", "3", "@-1", "9007199254740993", "9223372036854775807", "0.5"][r.below(11)].to_string();
     let mut out = Vec::new();
-    let shapes: Vec<usize> = if all { (0..if f == g { 12 } else { 9 }).collect() } else { vec![r.below(9), r.below(9)] };
+    let shapes: Vec<usize> = if all { (0..if f == g { 17 } else { 9 }).collect() } else { vec![r.below(9), r.below(9)] };
     for s in shapes {
         let (a, b, c) = (leaf(r), leaf(r), leaf(r));
         out.push(match s {
@@ -548,6 +559,12 @@ fn pair_shapes(f: &str, g: &str, r: &mut Rng, all: bool) -> Vec<String> {
             5 => format!("{}({},{})+{}({},{})", f, a, b, g, b, c),
             6 => format!("{}({}({}({})))", f, g, f, a),
             7 => format!("{}(1+{}({}))", f, g, a),
+            12 | 13 | 14 | 15 | 16 => {
+                // wide argument lists (aggregates; a parse error for fixed-arity functions)
+                let n = [8usize, 16, 40, 64, 100][s - 12];
+                let args: Vec<String> = (0..n).map(|i| match i % 3 { 0 => "@".to_string(), 1 => format!(".{}", 1 + i % 9), _ => format!("{}", i % 7) }).collect();
+                format!("{}({})", f, args.join(","))
+            }
             9 => format!("{}({})", f, a),
             10 => format!("{}({},{})", f, a, b),
             11 => format!("{}({},{},{})", f, a, b, c),
@@ -791,6 +808,62 @@ pub fn build_pool(seed: u64, repo: &str, sz: &PoolSizes, focus: Option<&PoolFocu
                         }
                     }
                 }
+            }
+        }
+    }
+    // (i) boundary ladders: structural sizes at 2^k-1, 2^k, 2^k+1 (k = 3..8, as far as 256 characters allow) and a dense
+    //     run just below the longest possible: nesting depth by parentheses and by sign chains, number of terms of a
+    //     flat chain, number of aggregate arguments, text length. Limits in code sit at such values.
+    {
+        let mut sizes: Vec<usize> = Vec::new();
+        for k in 3..=8u32 {
+            let p = 1usize << k;
+            sizes.extend([p - 1, p, p + 1]);
+        }
+        for e in ALL_EV {
+            let v = vocab(Some(e));
+            let aggr: Vec<&str> = v.aggr.iter().copied().take(4).collect();
+            for &n in &sizes {
+                // parentheses: depth n (2n+1 characters)
+                if 2 * n + 1 <= 256 {
+                    add_expr(&mut pool, &mut r, e, format!("{}@{}", "(".repeat(n), ")".repeat(n)), "boundary_ladder", 2);
+                    add_expr(&mut pool, &mut r, e, format!("{}@+1{}", "(".repeat(n.saturating_sub(1)), ")".repeat(n.saturating_sub(1))), "boundary_ladder", 2);
+                }
+                // sign chain: depth n
+                if n + 1 <= 256 {
+                    add_expr(&mut pool, &mut r, e, format!("{}1", "-".repeat(n)), "boundary_ladder", 1);
+                    add_expr(&mut pool, &mut r, e, format!("{}@", "-".repeat(n)), "boundary_ladder", 2);
+                }
+                // flat chain with n terms
+                if 2 * n <= 256 {
+                    let t: Vec<&str> = (0..n).map(|i| if i % 5 == 0 { "@" } else { "1" }).collect();
+                    add_expr(&mut pool, &mut r, e, t.join("+"), "boundary_ladder", 2);
+                }
+                // aggregate with n arguments
+                for f in &aggr {
+                    if f.len() + 2 + 2 * n + (n / 3) <= 256 {
+                        let args: Vec<String> = (0..n).map(|i| match i % 3 { 0 => "@".to_string(), 1 => if v.floats { format!(".{}", 1 + i % 9) } else { format!("{}", i % 10) }, _ => format!("{}", i % 7) }).collect();
+                        add_expr(&mut pool, &mut r, e, format!("{}({})", f, args.join(",")), "boundary_ladder", 2);
+                    }
+                }
+                // text of exactly n characters
+                if n >= 3 && n <= 256 {
+                    let mut t = String::from("@");
+                    while t.chars().count() + 2 <= n {
+                        t.push_str("+1");
+                    }
+                    if t.chars().count() < n {
+                        t.insert(0, ' ');
+                    }
+                    add_expr(&mut pool, &mut r, e, t, "boundary_ladder", 1);
+                }
+            }
+            // dense runs near the top
+            for n in 118..=127usize {
+                add_expr(&mut pool, &mut r, e, format!("{}@+1{}", "(".repeat(n), ")".repeat(n)), "boundary_ladder", 1);
+            }
+            for n in [120usize, 124, 126, 127, 128, 129, 130, 132, 160, 200, 254] {
+                add_expr(&mut pool, &mut r, e, format!("{}@", "-".repeat(n)), "boundary_ladder", 1);
             }
         }
     }
